@@ -312,6 +312,45 @@ def u_glm_estimator(h):
     h.observe('x', coefs[0])
 
 
+def u_cox(h, method, l1_case):
+    """CoxEstimator: method selects Efron / Breslow (the partial likelihoods themselves are tied to the datafit in C06),
+    penalty = alpha * (l1_ratio ||w||_1 + (1 - l1_ratio)/2 ||w||^2)"""
+    import skglm
+    n, p = 3, 2
+    X = h.mat('X', n, p)
+    A = h.real('alpha')
+    h.assume(A > 0)
+    if l1_case == 'one':
+        r = 1.0
+    elif l1_case == 'zero':
+        r = 0.0
+    else:
+        r = h.real('l1_ratio')
+        h.assume(r > 0, r < 1)
+    y = h.const(np.array([[1.0, 1.0], [1.0, 0.0], [2.0, 1.0]]))      # a tie between an event and a censored observation
+    est = skglm.CoxEstimator(alpha=A, l1_ratio=r, method=method, tol=1e-6, max_iter=9)
+    if h.mode == 'sym':
+        est._validate_params = lambda: None      # sklearn's parameter validation calls np.isnan on the (symbolic) values
+    call, (coefs, hist, kkt) = _fit_and_capture(h, est, X, y, p)
+    df, pen = call['datafit'], call['penalty']
+    h.ensure('method-selects-tie-handling', bool(df.use_efron) == (method == 'efron'))
+    w = h.vec('w', p)
+    wv = h.arr([w[j] for j in range(p)]) if h.mode == 'sym' else np.asarray(w, dtype=float)
+    pv = pen.value(wv)
+    ref = A * (r * sum(abs(w[j]) for j in range(p)) + (1 - r) / 2 * sum(w[j] * w[j] for j in range(p)))
+    h.ensure('penalty==documented', h.eq(pv, ref))
+    sol = call['solver']
+    h.ensure('knob[max_iter]', sol.max_iter == 9)
+    h.ensure('knob[tol]', sol.tol == 1e-6)
+    h.ensure('no-intercept', getattr(sol, 'fit_intercept', False) is False and est.intercept_ == 0.)
+    asm = h.true()
+    for j in range(p):
+        asm = h.and_(asm, h.eq(est.coef_[j], coefs[j]))
+    h.ensure('fitted-attributes', asm)
+    h.ensure('stop_crit_', h.eq(est.stop_crit_, kkt))
+    h.observe('x', coefs[0])
+
+
 def units(tier):
     us = []
     for name in ('Lasso', 'WeightedLasso', 'ElasticNet', 'MCPRegression', 'WeightedMCPRegression'):
@@ -330,7 +369,25 @@ def units(tier):
         us.append(Unit('C11/E/LinearSVC[labels=%s]' % (labels,), u_svc, dict(labels=labels), wall_s=90))
     for fi in (True, False):
         us.append(Unit('C11/E/MultiTaskLasso[fit_intercept=%s]' % fi, u_multitask, dict(fit_intercept=fi), wall_s=90))
+    for method in ('efron', 'breslow'):
+        for l1 in ('one', 'mid', 'zero'):
+            us.append(Unit('C11/E/CoxEstimator[method=%s,l1_ratio=%s]' % (method, l1), u_cox, dict(method=method, l1_case=l1),
+                           wall_s=90))
     us.append(Unit('C11/E/SqrtLasso', u_sqrt_lasso, {}, wall_s=90))
+    # the components the estimators hand to the solver do minimise / differentiate the documented terms: proximal operators
+    # of the penalties built above (global minimiser of the documented penalty's prox objective, C07 obligations) and the Cox
+    # datafit against the documented partial likelihood with ties and censoring (C06 obligations)
+    from checks import c07, c06
+    for lay, g in (([[0, 1]], 0), ([[1], [0]], 1)):
+        for pos in (False, True):
+            us.append(Unit('C11/K/GroupLasso-prox[layout=%s,g=%d,positive=%s]' % (lay, g, pos), c07.u_prox_group,
+                           dict(kind='WeightedGroupL2', layout=lay, g=g, positive=pos), wall_s=60))
+    for name in ('L1', 'L1+', 'WeightedL1', 'L1_plus_L2', 'L1_plus_L2+', 'MCPenalty', 'WeightedMCPenalty', 'IndicatorBox'):
+        us.append(Unit('C11/K/estimator-penalty-prox[%s]' % name, c07.u_prox1d, dict(name=name, j=1), wall_s=60))
+    for tm, sv in (([0, 0], [0, 1]), ([0, 1, 0], [1, 0, 1]), ([1, 0, 0], [0, 1, 1]), ([1, 1, 0], [1, 1, 0]), ([0, 0, 1], [1, 0, 1])):
+        for efron in (False, True):
+            us.append(Unit('C11/K/Cox-datafit[tm=%s,s=%s,efron=%s]' % (tm, sv, efron), c06.u_cox,
+                           dict(tm=tm, s=sv, efron=efron, sparse_pattern=[[1, 0], [0, 1], [1, 1]][:len(tm)]), wall_s=60))
     us.append(Unit('C11/E/GeneralizedLinearEstimator', u_glm_estimator, {}, wall_s=90))
     return us
 
@@ -339,7 +396,7 @@ MANIFEST = dict(
     claimed=True,
     level_text=("Bounded symbolic model checking of estimator plumbing: the real fit() of Lasso, WeightedLasso, ElasticNet, "
                 "MCPRegression (+weights), GroupLasso (all three group formats, both orders), SparseLogisticRegression "
-                "(4 label sets), LinearSVC, MultiTaskLasso, SqrtLasso and GeneralizedLinearEstimator runs with symbolic "
+                "(4 label sets), LinearSVC, MultiTaskLasso, CoxEstimator (both tie-handling methods, l1_ratio = 1 / in (0,1) / 0), SqrtLasso and GeneralizedLinearEstimator runs with symbolic "
                 "constructor arguments and data up to the intercepted solver.solve; z3 decides for ALL coefficient vectors that "
                 "the objective of the objects handed to the solver equals the documented objective with every argument meaning "
                 "what the documentation says, that knobs and data reach the solver unchanged, that the start is the documented "
@@ -348,5 +405,5 @@ MANIFEST = dict(
     level_note=("sklearn validators stubbed; BaseEstimator._validate_data compatibility stub (removed in the installed "
                 "scikit-learn); BaseSolver.solve intercepted -- stationarity/optimality of what the real solver returns for "
                 "the captured composition is C01 (C02 when convex); documented objectives are a transcribed reference model; "
-                "n=3, p=2, T=2. CoxEstimator and IterativeReweightedL1 are not covered yet."),
+                "n=3, p=2, T=2. IterativeReweightedL1 is not covered yet."),
 )
